@@ -43,6 +43,8 @@ CLAIMS = {
          "Every index of small levels and generated/present/adjacent/out-of-range indices of large ones: found iff present, position correct, group accessors equal a linear scan.", "3/C16"),
  "C17": ("property-based testing: export arrays against the input rows and the per-particle results read through the leaf iterator",
          "getAllParticlesData/Rhs entry i must equal the data/result of the particle inserted at i, for all generated trees.", "3/C17"),
+ "C18": ("property-based testing: counter wrapper differential (results vs unwrapped kernel) and merged counters vs model counts, OpenMP under mock-runtime schedules",
+         "Generated trees, thread counts, schedules and merge orders; counts must equal the numbers of elementary interactions implied by the model, results must be unchanged.", "3/C18"),
  "C20": ("property-based testing of FP2PR against an independent extended-precision evaluation of the pairwise law with a stated rounding tolerance; metamorphic mutual = two one-sided",
          "Generated clouds over 12 orders of magnitude of separation and counts around SIMD widths; every output component compared with a long double reference; self term, accumulation into pre-filled arrays, Newton's third law.", "3/C20"),
 }
